@@ -256,7 +256,7 @@ def run(run):
                 bp = SP.closure_param(c) if c is not None else None
                 if bp is not None:
                     e1 = dict(env0)
-                    for pid, anode in list(spec.arg_nodes.items()):
+                    for (_owner, pid), anode in list(spec.arg_nodes.items()):
                         v_ = sp.ev(anode, env0)
                         if v_ is not None:
                             e1[pid] = v_
